@@ -90,7 +90,7 @@ Call(lvl, now) == /\ conf.kind = "direct" /\ Len(hist) < conf.maxops /\ CallEff(
                   /\ hist' = Append(hist, [a |-> "Call", lvl |-> lvl, now |-> now, adm |-> CallExpected(lvl, now)])
 Log(lvl, now) == /\ conf.kind = "logger" /\ Len(hist) < conf.maxops /\ LogEff(lvl, now)
                  /\ hist' = Append(hist, [a |-> "Log", lvl |-> lvl, now |-> now, adm |-> LogExpected(lvl, now)])
-Toggle(v) == /\ conf.kind = "logger" /\ Len(hist) < conf.maxops /\ v # sampOff /\ ToggleEff(v)
+Toggle(v) == /\ conf.kind = "logger" /\ Len(hist) < conf.maxops /\ ToggleEff(v)         \* also redundantly: the switch is a flag, not a counter
              /\ hist' = Append(hist, [a |-> "Toggle", lvl |-> 0, now |-> 0, adm |-> v])
 Next == \/ \E lvl \in conf.levels, now \in conf.clock : Call(lvl, now) \/ Log(lvl, now)
         \/ \E v \in BOOLEAN : Toggle(v)
